@@ -164,7 +164,18 @@ class YAMLPath:
         if (popped_segment[0] is PathSegmentTypes.ANCHOR
             and path_now.endswith(bracketed_segment)
         ):
-            self.original = path_now[0:len(path_now) - len(bracketed_segment)]
+            path_now = path_now[0:len(path_now) - len(bracketed_segment)]
+
+            # A path built by append() bears a separator before the bracket;
+            # without its segment that (unescaped) separator must go, too, or
+            # the next pop() finds nothing to remove.
+            sepchar = str(self.separator)
+            if len(path_now) > 1 and path_now.endswith(sepchar):
+                stem = path_now[0:len(path_now) - len(sepchar)]
+                escapes = len(stem) - len(stem.rstrip("\\"))
+                if escapes % 2 == 0:
+                    path_now = stem
+            self.original = path_now
         elif path_now.endswith(prefixed_segment):
             self.original = path_now[0:len(path_now) - len(prefixed_segment)]
         elif path_now.endswith(removable_segment):
